@@ -1,6 +1,4 @@
-(* C10/Proofs.v -- lemmas about the heap model. *)
+(* C10/Proofs.v -- operator trees. *)
 From Coq Require Import ZArith Reals Lra Lia List Bool Arith.
-From Verif Require Import Base.Num Base.Vec C10.Model.
+From Verif Require Import Base.Num Base.Vec C10.Model C10.HeapLemmas C10.Leaves.
 Import ListNotations.
-
-Global Instance Sqrt_R : Sqrt R := {| nsqrt := sqrt |}.
